@@ -294,8 +294,11 @@ def _r4(ctx, pkg):
     fn = ci.methods["species"]
     fl = Flow(fn, NF)
     a = fl.assigns.get("speclist", [])
-    ok = bool(a) and simp(a[0][0]) == ("call", ("global", "sorted"), (union,), ())
-    ctx.check(ok, "R4", "Network.species:source", (NF, fn.lineno), "species = sorted(_reactants | _products | set(_required_species))", found=show(simp(a[0][0]))[:100] if a else "")
+    v0 = simp(a[0][0]) if a else None
+    # the ORDER of the species is C09/C17's subject; here only the membership matters
+    inner = v0[2][0] if v0 and v0[0] == "call" and v0[1] in (("global", "sorted"), ("global", "list"), ("global", "tuple")) and len(v0[2]) == 1 else v0
+    ok = inner == union
+    ctx.check(ok, "R4", "Network.species:source", (NF, fn.lineno), "species are the members of _reactants | _products | set(_required_species)", found=show(v0)[:100] if a else "")
     fn = ci.methods["find_source_sink"]
     fl = Flow(fn, NF)
     src = fl.assigns.get("source", [])
